@@ -124,8 +124,22 @@ fn check(c: &Case, st: &mut Stats) -> Result<(), String> {
                 pdu.extend(pdu_bytes(extra, 99));
                 let mut b = vec![0u8; gse_len + 2];
                 match call_encap(&mut enc, &pdu, *frag_id, *ptype, *lab, &mut b) {
-                    Ok(Ok(EncapStatus::FragmentedPkt(n, cx))) if n as usize == gse_len + 2 && b == wire && cx.len_pdu_frag() as usize == pay.len() => {}
-                    o => return st.violation("generate-vs-encap", format!("encap for the same fields: {:?} bytes {} vs generate {}", o.map_err(|p| p.0), hex(&b), hex(&wire))),
+                    Ok(Ok(EncapStatus::FragmentedPkt(n, cx))) => {
+                        // "the same fields": the description is re-derived from what the encapsulator chose to
+                        // carry (it need not fill the buffer), then generate must reproduce its bytes exactly
+                        let carried = (cx.len_pdu_frag() as usize).min(pdu.len());
+                        let n = (n as usize).min(b.len());
+                        let d2 = GseFirstFragPacket::new((n - 2) as u16, *frag_id, total as u16, *ptype, lab.to_label(), &pdu[..carried]);
+                        let mut w2 = vec![0u8; n];
+                        if let Err(p) = guard(|| d2.generate(&mut w2)) {
+                            return st.violation("generate-panic", format!("GseFirstFragPacket::generate panicked: {}", p.0));
+                        }
+                        if w2[..] != b[..n] {
+                            return st.violation("generate-vs-encap", format!("encap emitted {} but generate for the same fields gives {}", hex(&b[..n]), hex(&w2)));
+                        }
+                    }
+                    Ok(Ok(_)) | Ok(Err(_)) => st.class("encap-did-not-fragment-here"),
+                    Err(p) => return st.violation("encap-panic", format!("encap panicked: {}", p.0)),
                 }
             }
             let bufs = if *lab == Lab::ReUse { vec![total, 16] } else { vec![total] };
@@ -163,8 +177,20 @@ fn check(c: &Case, st: &mut Stats) -> Result<(), String> {
             let cx = ContextFrag::new(*frag_id, 0xABCD_EF01, *pos);
             let mut b = vec![0u8; gse_len + 2];
             match call_encap_frag(&enc, &pdu, &cx, &mut b) {
-                Ok(Ok(EncapStatus::FragmentedPkt(n, c2))) if n as usize == gse_len + 2 && b == wire && c2.len_pdu_frag() as usize == *pos as usize + pay.len() => {}
-                o => return st.violation("generate-vs-encap", format!("encap_frag for the same fields: {:?} bytes {} vs generate {}", o.map_err(|p| p.0), hex(&b), hex(&wire))),
+                Ok(Ok(EncapStatus::FragmentedPkt(n, c2))) => {
+                    let n = (n as usize).min(b.len());
+                    let carried = (c2.len_pdu_frag() as usize).saturating_sub(*pos as usize).min(pdu.len() - *pos as usize);
+                    let d2 = GseIntermediatePacket::new((n - 2) as u16, *frag_id, &pdu[*pos as usize..*pos as usize + carried]);
+                    let mut w2 = vec![0u8; n];
+                    if let Err(p) = guard(|| d2.generate(&mut w2)) {
+                        return st.violation("generate-panic", format!("GseIntermediatePacket::generate panicked: {}", p.0));
+                    }
+                    if w2[..] != b[..n] {
+                        return st.violation("generate-vs-encap", format!("encap_frag emitted {} but generate for the same fields gives {}", hex(&b[..n]), hex(&w2)));
+                    }
+                }
+                Ok(Ok(_)) | Ok(Err(_)) => st.class("encap-did-not-fragment-here"),
+                Err(p) => return st.violation("encap-panic", format!("encap_frag panicked: {}", p.0)),
             }
             // receiver: first (RefCodec) + this intermediate + end (utils) => delivered = concatenation
             let head = pdu_bytes(3, 8);
